@@ -491,7 +491,10 @@ def r_concat_offsets(c):
     for prev in (f"{U}[$i - 1]", f"{U}[-1]"):
         acc += find(fd, f"{U}.append({prev} + $a.shape[$$ax])") \
             + find(fd, f"{U}.append($a.shape[$$ax] + {prev})")
-    acc += find(fd, f"{U} = list(accumulate($$lens))")
+    acc += find(fd, f"{U} = list(accumulate($$lens))") \
+        + find(fd, f"{U} = list(accumulate($$lens, initial=$$first))") \
+        + find(fd, f"{U} = list(itertools.accumulate($$lens))") \
+        + find(fd, f"{U} = list(itertools.accumulate($$lens, initial=$$first))")
     c.check(len(acc) == 1, "R02-BIND", "ToIndexLambdaMixin.map_concatenate",
             "upper-bounds-accumulate", where,
             f"the upper bounds `{U}` are not a running sum of the operands' lengths")
